@@ -641,7 +641,7 @@ func RunC18(cfg Config) (*ShardResult, error) {
 						}
 					}
 				} else {
-					fs = append(fs, simio.WriteFault{Offset: k, Kind: simio.WriteFaultKinds[(k/2+ki)%3], Short: k%2 == 0})
+					fs = append(fs, simio.WriteFault{Offset: k, Kind: simio.WriteFaultKinds[(k/2+ki)%len(simio.WriteFaultKinds)], Short: k%2 == 0})
 				}
 				for _, f := range fs {
 					f := f
